@@ -116,6 +116,7 @@ func c06quote(t string, r *core.Rng, allowUnquoted bool) (string, string) {
 
 type c06render struct {
 	r      *core.Rng
+	args   [][2]string // quoted argument as written, text it stands for
 	styles map[string]int
 	plain  bool // no comments, single blanks, tokens unquoted where legal
 }
@@ -145,6 +146,9 @@ func (cr *c06render) stmt(s *ystmt, indent string) string {
 				q += core.Pick(cr.r, []string{" ", "\n", "\t"})
 			}
 			cr.styles[st]++
+			if st == "single" || st == "double" || st == "concat" {
+				cr.args = append(cr.args, [2]string{q, *s.arg})
+			}
 			b.WriteString(q)
 		}
 	}
@@ -183,8 +187,72 @@ type c06gen struct {
 
 func (g *c06gen) name(p string) string { g.seq++; return fmt.Sprintf("%s%d", p, g.seq) }
 func (g *c06gen) text() string        { return core.Pick(g.r, c06texts) }
-func (g *c06gen) fact(path, what, want string) {
-	g.facts = append(g.facts, c06fact{path, what, want})
+func (g *c06gen) fact(path, what, want string) {}
+
+// facts are read off the finished statement tree, in textual order
+var c06defKinds = map[string]bool{"module": true, "container": true, "list": true, "leaf": true, "leaf-list": true, "choice": true, "case": true}
+var c06dataKinds = map[string]bool{"container": true, "list": true, "leaf": true, "leaf-list": true, "choice": true}
+
+func c06facts(s *ystmt, path string, out *[]c06fact) {
+	add := func(what, want string) { *out = append(*out, c06fact{path, what, want}) }
+	nMust, nRev, nUnique := 0, 0, 0
+	nExtOn := map[string]int{}
+	var kids, cases []string
+	for _, k := range s.subs {
+		arg := ""
+		if k.arg != nil {
+			arg = *k.arg
+		}
+		switch {
+		case strings.HasPrefix(k.kw, "m:"):
+			add(fmt.Sprintf("extension@[%d]", nExtOn[""]), fmt.Sprintf("%s %q", k.kw, arg))
+			nExtOn[""]++
+		case k.kw == "must":
+			add(fmt.Sprintf("must[%d]", nMust), arg)
+			for _, ms := range k.subs {
+				if !strings.HasPrefix(ms.kw, "m:") {
+					add(fmt.Sprintf("must[%d].%s", nMust, ms.kw), *ms.arg)
+				}
+			}
+			nMust++
+		case k.kw == "revision":
+			add(fmt.Sprintf("revision[%d]", nRev), arg)
+			for _, rs := range k.subs {
+				add(fmt.Sprintf("revision[%d].%s", nRev, rs.kw), *rs.arg)
+			}
+			nRev++
+		case k.kw == "unique":
+			add(fmt.Sprintf("unique[%d]", nUnique), strings.Join(strings.Fields(arg), " "))
+			nUnique++
+		case k.kw == "key":
+			add("key", strings.Join(strings.Fields(arg), " "))
+		case k.kw == "extension" || k.kw == "type" || k.kw == "argument":
+		case k.kw == "case":
+			cases = append(cases, arg)
+			c06facts(k, path+"/"+arg, out)
+		case c06dataKinds[k.kw]:
+			kids = append(kids, arg)
+			c06facts(k, path+"/"+arg, out)
+		default:
+			add(k.kw, arg)
+			// an extension below this statement
+			for _, e := range k.subs {
+				if strings.HasPrefix(e.kw, "m:") {
+					ea := ""
+					if e.arg != nil {
+						ea = *e.arg
+					}
+					add(fmt.Sprintf("extension@%s[%d]", k.kw, nExtOn[k.kw]), fmt.Sprintf("%s %q", e.kw, ea))
+					nExtOn[k.kw]++
+				}
+			}
+		}
+	}
+	if s.kw == "choice" {
+		add("cases-in-order", strings.Join(cases, ","))
+	} else if s.kw != "leaf" && s.kw != "leaf-list" {
+		add("children", strings.Join(kids, ","))
+	}
 }
 
 // an extension statement, optionally
@@ -677,13 +745,21 @@ func c06read(m *meta.Module, f c06fact) (got string, ok bool) {
 	case "cases-in-order":
 		// the only order the public API offers
 		return strings.Join(n.(*meta.Choice).CaseIdents(), ","), true
-	case "extension":
-		es := n.(meta.HasExtensions).Extensions()
-		if idx >= len(es) {
-			return fmt.Sprintf("<only %d extensions>", len(es)), true
+	default:
+		if strings.HasPrefix(what, "extension@") {
+			kw := strings.TrimPrefix(what, "extension@")
+			var es []*meta.Extension
+			for _, e := range n.(meta.HasExtensions).Extensions() {
+				if e.Keyword() == kw {
+					es = append(es, e)
+				}
+			}
+			if idx >= len(es) {
+				return fmt.Sprintf("<only %d extensions on %q>", len(es), kw), true
+			}
+			e := es[idx]
+			return fmt.Sprintf("%s:%s %q", e.Prefix(), e.Ident(), e.Argument()), true
 		}
-		e := es[idx]
-		return fmt.Sprintf("%s %s:%s %q", e.Keyword(), e.Prefix(), e.Ident(), e.Argument()), true
 	}
 	return "", false
 }
@@ -722,6 +798,8 @@ func C06(c *core.Ctx) {
 	}
 	rng := core.NewRng(c.Seed)
 	nMods := c.N(60, 2500)
+	var lines []string
+	var written [][2]string
 	var texts []string
 	var dumps []string
 	for mi := 0; mi < nMods; mi++ {
@@ -734,6 +812,11 @@ func C06(c *core.Ctx) {
 			for i := 0; i < n; i++ {
 				c.Count("quoting", st)
 			}
+		}
+		for _, a := range cr.args {
+			term := core.Pick(r, []string{";", " ;", "\n{", " /* c */ ;", "// x\n;"})
+			lines = append(lines, "c06 arg "+core.Hex(a[0]+term))
+			written = append(written, [2]string{a[0] + term, a[1]})
 		}
 		plain := (&c06render{r: r, styles: map[string]int{}, plain: true}).stmt(mod, "")
 		var m *meta.Module
@@ -753,8 +836,11 @@ func C06(c *core.Ctx) {
 			continue
 		}
 		c.Distinct(fmt.Sprint(mi))
-		for _, f := range g.facts {
+		var facts []c06fact
+		c06facts(mod, "", &facts)
+		for _, f := range facts {
 			got, ok := c06read(m, f)
+			c.Evaluations++
 			c.Count("fact", strings.SplitN(strings.SplitN(f.what, "[", 2)[0], ".", 2)[0])
 			if !ok {
 				c.Count("harness", "unreadable:"+f.what)
@@ -812,6 +898,29 @@ func C06(c *core.Ctx) {
 					}
 				}
 			}
+		}
+	}
+	// the Lean reader on every quoted argument as it was written into the modules above
+	outs, derr := core.RunDriver(lines)
+	if derr != nil {
+		c.ProofBroken = append(c.ProofBroken, derr.Error())
+		return
+	}
+	for i, o := range outs {
+		f := strings.Fields(o)
+		c.Evaluations++
+		c.Count("model_arg", map[bool]string{true: "read", false: "rejected"}[len(f) == 2])
+		got := "<rejected>"
+		rest := ""
+		if len(f) == 2 {
+			got, rest = core.Unhex(f[0]), core.Unhex(f[1])
+		}
+		if i%499 == 0 {
+			c.Sample(map[string]interface{}{"written": written[i][0], "text": written[i][1], "model_reads": got})
+		}
+		if got != written[i][1] || (rest != ";" && rest != "{") {
+			c.Violation(core.Replay{Kind: "correspondence", Class: "model-arg", Summary: fmt.Sprintf("argument written %q for the text %q: the Lean reader gives %q, rest %q (the library read the text back from the same module)", written[i][0], written[i][1], got, rest),
+				Input: map[string]interface{}{"written": written[i][0], "text": written[i][1]}, Model: got})
 		}
 	}
 	// fixed probes for recorded findings and repaired defects
@@ -883,6 +992,44 @@ func c06probes(c *core.Ctx) {
 			}
 			return ""
 		}, "dq-indentation-kept"},
+		{"quoted number arguments", hdr + "  leaf-list a { type string; min-elements '3'; max-elements \"7\"; }\n}", func(m *meta.Module, err error) string {
+			if err != nil {
+				return "load fails: " + err.Error()
+			}
+			ll := m.DataDefinitions()[0].(*meta.LeafList)
+			if ll.MinElements() != 3 || ll.MaxElements() != 7 {
+				return fmt.Sprintf("min-elements reads %d, max-elements %d", ll.MinElements(), ll.MaxElements())
+			}
+			return ""
+		}, ""},
+		{"quoted yang-version and revision date", "module m { yang-version \"1.1\"; namespace \"urn:m\"; prefix m; revision \"2020-01-01\";\n}", func(m *meta.Module, err error) string {
+			if err != nil {
+				return "load fails: " + err.Error()
+			}
+			if m.Version() != "1.1" || m.Revisions()[0].Ident() != "2020-01-01" {
+				return fmt.Sprintf("yang-version reads %q, revision %q (the quotes are kept)", m.Version(), m.Revisions()[0].Ident())
+			}
+			return ""
+		}, "version-revision-keep-quotes"},
+		{"block comment glued to an unquoted argument", hdr + "  leaf a { type string; units kg/* c */; }\n}", func(m *meta.Module, err error) string {
+			if err != nil {
+				return "load fails: " + err.Error()
+			}
+			if got := m.DataDefinitions()[0].(*meta.Leaf).Units(); got != "kg" {
+				return fmt.Sprintf("units reads %q", got)
+			}
+			return ""
+		}, "comment-glued-to-unquoted"},
+	}
+	for _, body := range []string{"leaf a { type string; config \"false\"; }", "leaf a { type string; mandatory 'true'; }", "leaf a { type string; status \"current\"; }",
+		"leaf-list a { type string; ordered-by \"user\"; }", "leaf-list a { type string; max-elements \"unbounded\"; }", "leaf a { type \"string\"; }", "leaf \"a\" { type string; }", "container 'a' { }"} {
+		body := body
+		probes = append(probes, probe{"quoted keyword or identifier argument: " + body, hdr + body + "\n}", func(m *meta.Module, err error) string {
+			if err != nil {
+				return "legal YANG (any argument may be quoted, RFC 7950 §6.1.3) does not load: " + err.Error()
+			}
+			return ""
+		}, "quoted-keyword-argument"})
 	}
 	for _, p := range probes {
 		var m *meta.Module
